@@ -591,3 +591,61 @@ func LeanIdent(name string) string {
 	}
 	return sb.String()
 }
+
+// SpecText gives the TL-B schema type (text form of lean/Driver/OpsTlbSpec.lean) of a descriptor that is a primitive
+// or a generic combinator over primitives — where the TL-B type is fixed by the NAME of the Go type (Maybe[X] is
+// `Maybe X`, Uint5 is `## 5`, …). Structs and sum types are deliberately not handled: their schema is transcribed by
+// hand in BlockTlb.lean, never derived from the Go descriptor.
+func (d *Desc) SpecText() (string, bool) {
+	switch d.Kind {
+	case KUint:
+		return fmt.Sprintf("(:nat|%d)", d.N), true
+	case KInt:
+		return fmt.Sprintf("(:int|%d)", d.N), true
+	case KBool:
+		return ":bool", true
+	case KBytes:
+		return fmt.Sprintf("(:bits|%d)", d.N*8), true
+	case KMaybe:
+		if s, ok := d.Elem.SpecText(); ok {
+			return "(:maybe|" + s + ")", true
+		}
+	case KEither:
+		l, ok1 := d.Elem.SpecText()
+		r, ok2 := d.Elem2.SpecText()
+		if ok1 && ok2 {
+			return "(:either|" + l + "|" + r + ")", true
+		}
+	case KEitherRef:
+		if s, ok := d.Elem.SpecText(); ok {
+			return "(:either|" + s + "|(:ref|" + s + "))", true
+		}
+	case KRef:
+		if d.Elem.Kind == KCell {
+			return ":cellref", true
+		}
+		if s, ok := d.Elem.SpecText(); ok {
+			return "(:ref|" + s + ")", true
+		}
+	case KPrim:
+		switch d.Name {
+		case "grams":
+			return "(:varuint|16)", true
+		case "varUint":
+			return fmt.Sprintf("(:varuint|%d)", d.N), true
+		case "bigUint":
+			return fmt.Sprintf("(:nat|%d)", d.N), true
+		case "bigInt":
+			return fmt.Sprintf("(:int|%d)", d.N), true
+		case "unary":
+			return ":unary", true
+		case "any":
+			return ":any", true
+		case "msgAddress":
+			return ":msgaddress", true
+		case "anycast":
+			return ":anycast", true
+		}
+	}
+	return "", false
+}
